@@ -863,7 +863,18 @@ func judgeOneshot(c *Ctx, sc *Scenario, site *Site, base []byte, engineB bool) *
 	}
 	if engineB {
 		os.Remove(fired)
-		return runFaultedB(c, sc, site, base)
+		// engine B is compared with its own fault-free run (real git may
+		// deliver objects in another order than the plan drew for the stub,
+		// which legitimately changes which witness is named)
+		b := *sc
+		b.Plan = planWithoutFaults(sc.Plan)
+		b.Plan.Oneshot = nil
+		rb := RunB(&b, site, BOpts{})
+		if rb.Failed || rb.Hang || rb.Panic != "" {
+			c.Stats.Probe("engine-B-baseline-not-clean")
+			return nil
+		}
+		return runFaultedB(c, sc, site, rb.Stdout)
 	}
 	return nil
 }
